@@ -106,6 +106,8 @@ def gen_keys(rng, n, sep, domain, allow_int_seq):
     """n distinct keys"""
     keys = []
     mode = rng.random()
+    if n == 0:
+        return []
     if allow_int_seq and mode < 0.18:
         # 1..n exactly (the arrayify trigger), sometimes shuffled or with a gap
         ks = [str(i + 1) for i in range(n)]
@@ -295,7 +297,6 @@ def part1_flatten_unflatten(ctx, props_ok):
         # kind 3: JSON -> tabular -> JSON through files (auto-flatten / auto-unflatten), leaves that survive text
         if len(sep) == 1:
             trecs = [gen_record(rng, sep, "tabular", intseq=False) for _ in range(nper // 2)]
-            trecs = [r for r in trecs if not (classify_loss(r, sep) - {"intkeyed"}) or True]
             ctx.dist("p1_tabular_trip", len(trecs))
             for mid in ("dkvp", "xtab"):
                 st, mid_out, err = mlr_run(ctx, ["--ijson", "-o", mid, "--flatsep", sep, "cat"],
@@ -329,7 +330,12 @@ def part1_flatten_unflatten(ctx, props_ok):
     bad, err = [], ""
     if props_ok:
         with ctx.timed("coq_cases"):
-            bad, err = coq_eval_mismatches(ctx, "C02", "C02.Model C02.Harness", "Z * bytes * jmap * jmap", "chk", terms, shard=400)
+            # at most two coqc processes at a time (shared machine): two shards per call, calls in sequence
+            shard = 600
+            for k in range(0, len(terms), 2 * shard):
+                b, e = coq_eval_mismatches(ctx, "C02", "C02.Model C02.Harness", "Z * bytes * jmap * jmap", "chk", terms[k:k + 2 * shard], shard=shard)
+                bad += [(k + i if i >= 0 else i) for i in b]
+                err += e
         ctx.cov["correspondence"] = {"cases": len(terms), "mismatches": len(bad)}
         if err:
             ctx.violation({"broken": "correspondence-evaluation", "detail": err[-2000:]}, found_input=False)
@@ -408,7 +414,7 @@ def part3_conversions(ctx):
         name, a, b = job
         st, out, err = mlr_run(ctx, IN_FLAG[a] + OUT_FLAG[b] + ["cat"], canon[(name, a)], timeout=30)
         return job, classify_run(st, err), out, err
-    with ThreadPoolExecutor(8) as ex:
+    with ThreadPoolExecutor(3) as ex:
         results = list(ex.map(conv, jobs))
     npairs = 0
     failing = []
@@ -421,19 +427,64 @@ def part3_conversions(ctx):
     ntriples = sum(len(f) ** 3 for _, _, f in classes)
     ctx.cov["p3_conversions"] = {"ordered_pairs_run": npairs, "triples_covered_by_transitivity": ntriples, "failing_pairs": len(failing)}
     rep = 0
-    for name, a, b, cls, out, err in failing[:40]:
-        if rep >= 3:
+    seen_cls = set()
+    for name, a, b, cls, out, err in failing:
+        if rep >= 4:
             break
         # explicit witness in the property's own terms: A->B vs A->J->B with J = json (the master)
-        witness = {"class": "conversion:%s->%s:%s" % (a, b, name), "data_class": name, "from": a, "to": b,
+        wclass = "conversion-from-yaml" if a == "yaml" else "conversion:%s->%s:%s" % (a, b, name)
+        if wclass in seen_cls:
+            continue
+        seen_cls.add(wclass)
+        witness = {"class": wclass, "data_class": name, "from": a, "to": b,
                    "input": canon[(name, a)].decode("utf-8", "replace"), "observed": out.decode("utf-8", "replace")[:2000],
                    "expected": canon[(name, b)].decode("utf-8", "replace")[:2000], "status": cls, "stderr": err.decode("utf-8", "replace")[-300:],
                    "how": "mlr -i %s -o %s cat  vs  mlr -i %s --ojson cat | mlr --ijson -o %s cat" % (a, b, a, b)}
         rep += 1 if ctx.violation(witness) else 0
+    ctx.cov["p3_conversions"]["failing_classes"] = sorted(seen_cls)
+    # two direct probes of the YAML reader (the causes behind class conversion-from-yaml on today's tree)
+    for cls_name, inp, want in (("yaml-reader-sorts-keys", b"- b: 1\n  a: 2\n", b'{"b": 1, "a": 2}\n'),
+                                ("yaml-reader-reformats-numbers", b"- a: 3.0\n  b: 1.50\n", b'{"a": 3.0, "b": 1.50}\n')):
+        st, out, err = mlr_run(ctx, ["--iyaml", "--ojsonl", "cat"], inp, timeout=30)
+        ctx.count(("p3-yaml-probe", cls_name))
+        if out != want:
+            ctx.violation({"class": cls_name, "input": inp.decode(), "observed": out.decode("utf-8", "replace"), "expected": want.decode(),
+                           "how": "mlr --iyaml --ojsonl cat", "note": "the same data through --ijson keeps field order and number text"})
     if canon:
         k = sorted(canon)[0]
         ctx.sample({"part": 3, "data_class": k[0], "format": k[1], "canonical_text": canon[k].decode("utf-8", "replace")[:300]})
     return failing
+
+
+def io_name_probes(ctx):
+    """`-i X` / `--io X` for names X whose long flags --iX / --X exist (C02_io_forms_names_refuted)"""
+    out = []
+    md = b"| a | b |\n| --- | --- |\n| 1 | x |\n"
+    for short, long_, inp in ((["-i", "jsonl", "--ojson"], ["--ijsonl", "--ojson"], b'{"a": 1, "b": "x"}\n'),
+                              (["--io", "jsonl"], ["--jsonl"], b'{"a": 1, "b": "x"}\n'),
+                              (["--io", "md"], ["--md"], md)):
+        r1 = mlr_run(ctx, short + ["cat"], inp, timeout=30)
+        r2 = mlr_run(ctx, long_ + ["cat"], inp, timeout=30)
+        ctx.count(("p2-io-name", tuple(short)))
+        ctx.dist("flags_oracle_io_names")
+        if (r1[0], r1[1]) != (r2[0], r2[1]):
+            b = {"class": "flag-spelling:%s-rejected" % "_".join(short[:2]), "flag": " ".join(short), "expansion": " ".join(long_),
+                 "input": inp.decode(), "observed": {"status": r1[0], "stdout": r1[1].decode("utf-8", "replace"), "stderr": r1[2].decode("utf-8", "replace")[-300:]},
+                 "expected": {"status": r2[0], "stdout": r2[1].decode("utf-8", "replace")},
+                 "how": "mlr %s cat  vs  mlr %s cat" % (" ".join(short), " ".join(long_))}
+            out.append(b)
+            ctx.violation(b)
+    return out
+
+
+def jsonable(o):
+    if isinstance(o, dict):
+        return {(k if isinstance(k, (str, int, float, bool)) or k is None else str(k)): jsonable(v) for k, v in o.items()}
+    if isinstance(o, (list, tuple, set)):
+        return [jsonable(v) for v in o]
+    if isinstance(o, bytes):
+        return o.decode("utf-8", "replace")
+    return o
 
 
 # ------------------------------------------------------------------ run / replay
@@ -448,17 +499,19 @@ def run(ctx):
                                "implrun flag-table/flag-eval translator (reflection dump of TOptions)", "python harness; Python json module as JSON parser of mlr output"]
     ctx.assumptions = ["JSON reader/writer, CSV/TSV/... codecs are not modelled here (C01); conversions across formats are tied by mlr runs only",
                        "A->B = A->C->B is proved in Coq only parametrically in reader/writer functions that satisfy round-trip (C02_conv_via)"]
-    deps = ["C02/Harness.vo", "C02/Proofs.vo"]
-    if c02_flags is not None:
+    deps = ["C02/Harness.vo", "C02/Proofs.vo", "C02/FlagProofs.vo", "C02/FlagExtra.vo"]
+    parts = set((os.environ.get("C02_PARTS") or "1,2,3").split(","))   # developer switch; the registered commands run all parts
+    flags_mod = c02_flags if "2" in parts else None
+    if flags_mod is not None:
         try:
             with ctx.timed("gen_flags"):
-                ctx.cov["flags"] = c02_flags.gen_flags(ctx)
+                ctx.cov["flags"] = jsonable(c02_flags.gen_flags(ctx))
         except Exception as ex:
             ctx.violation({"broken": "gen_flags", "detail": repr(ex)[-1500:]}, found_input=False)
     forbidden_gate(ctx, ["Base", "C02"])
     ok, why = check_props(ctx, "C02/Props.v", deps)
     flag_bad = []
-    if c02_flags is not None:
+    if flags_mod is not None:
         with ctx.timed("flag_oracle"):
             try:
                 flag_bad = c02_flags.flag_oracle(ctx) or []
@@ -471,10 +524,14 @@ def run(ctx):
             seen.add(b.get("class"))
             ctx.violation(b)
         ctx.cov["flag_oracle"] = {"mismatches": len(flag_bad), "classes": sorted(seen)}
-    with ctx.timed("part1"):
-        p1_bad = part1_flatten_unflatten(ctx, ok)
-    with ctx.timed("part3"):
-        p3_bad = part3_conversions(ctx)
+        flag_bad += io_name_probes(ctx)
+    p1_bad, p3_bad = [], []
+    if "1" in parts:
+        with ctx.timed("part1"):
+            p1_bad = part1_flatten_unflatten(ctx, ok)
+    if "3" in parts:
+        with ctx.timed("part3"):
+            p3_bad = part3_conversions(ctx)
     if not ok:
         # a proof obligation broke; the oracles above are the failing-input search
         found = bool(flag_bad or p3_bad or [b for b in p1_bad if b["class"].endswith("other")])
